@@ -23,6 +23,7 @@ type Config struct {
 	MaxDepth  int // decisions per path
 	AllocCap  int // max elements for make/append with symbolic size
 	Workers   int
+	Thorough  bool
 	KeepLog   bool
 }
 
